@@ -2487,5 +2487,6 @@ func init() {
 	vh.Enum("null_elements", enumNullElements, judgeMutation)
 	vh.Enum("urls", enumURLs, judgeMutation)
 	vh.Enum("absent_members", enumAbsentMembers, judgeMutation)
+	vh.Enum("standalone_types", enumStandalone, judgeStandalone)
 	vh.Rapid("mutations", 1800, 96000, genMutation, judgeMutation)
 }
